@@ -485,6 +485,12 @@ def check_case(case: dict, drv, rng: random.Random | None = None, perm=None, wan
                                  {"bulk": A.errors[:6], "alone": {i: s.errors[:3] for i, s in solos.items()}}))
     if not A.ok:
         info["status"] = "rejected"
+        rc = real_class(A)
+        if case.get("kind") == "valid" and rc is not None and rc[0] in ("argDoublyDefined", "argMissing"):
+            # by construction every required argument is given and every declared name is new: the property's
+            # own words (positional binding, blank → default) say these arguments are fine
+            problems.append(("correct template arguments are rejected (bulk and single rows alike)",
+                             {"error": A.criticals[:2], "definitions": case["defs"], "arguments": case["given"]}))
         tie_reqs = [(label, run, tie_req(run)) for label, run in (("A", A), ("B", B))]
         tie_reqs = [t for t in tie_reqs if t[2] is not None]
         answers = drv.results([t[2] for t in tie_reqs]) if tie_reqs else []
@@ -743,7 +749,7 @@ def case_worker(args):
                       "tmpl": case["base"]["tmpl"], "flows": [f["name"] for f in info["A"].doc["flows"]]}
         if kind == "valid" and status == "rejected":
             bump("valid_but_rejected")
-            if len(bad) < 3:
+            if not problems:
                 ties.append({"what": "generator: a case meant to be valid is rejected by the real code (both ways equally)",
                              "errors": [info["A"].exc, info["A"].errors[:2]], "generator_bug": True})
         for what, detail in problems:
@@ -874,7 +880,7 @@ def run(ck: core.Check):
         "uuid threading between instances is compared on the real code only (canonical renaming per flow and per container)",
     ]
     drv = core.Driver()
-    n_total = 320 if quick else 6400
+    n_total = 320 if quick else 3200
     nshards = par.NPROC * (1 if quick else 4)
     kinds = ["valid"] * 6 + ["probe"] * 3 + ["malformed"] * 1
     jobs = [(ck.rng.randrange(1 << 60), max(1, n_total // nshards), kinds) for _ in range(nshards)]
@@ -927,6 +933,8 @@ def run(ck: core.Check):
                 ck.violation(b["what"], {"case": b["case"], "order_of_permuted_rows": b["perm"], "detail": b["detail"]})
         ck.search_ran = True
 
+    if ck.violations:
+        return   # a failing input is in hand: stratum self-checks below are about the unchanged tree
     if gen_bugs > max(3, ck.strata.get("cases_valid", 0) // 20):
         raise core.Infra(f"generator: {gen_bugs} cases meant to be valid are rejected by the real code")
     need = ["feat_loop_items", "feat_loop_sheet_arg", "feat_include_if_data", "feat_insert_as_block", "feat_arg_sheet",
